@@ -31,8 +31,21 @@ type C struct {
 
 var connSeq atomic.Int64
 
+// DefaultFlags are the DISABLE_* flags (comma separated) given to connections
+// dialled without flags of their own; probes never carry flags. Set by the
+// checks that run registry scenarios under flags (C17); not concurrency-safe:
+// set before a part starts, cleared after it.
+var DefaultFlags string
+
 // Dial opens a connection to a lab SUT.
 func Dial(p *sut.Proc, mods string, flags string) (*C, error) {
+	if flags == "" {
+		flags = DefaultFlags
+	}
+	return dial(p, mods, flags)
+}
+
+func dial(p *sut.Proc, mods string, flags string) (*C, error) {
 	id := int(connSeq.Add(1))
 	q := url.Values{"mods": {mods}}
 	if flags != "" {
@@ -217,7 +230,7 @@ type Snapshot struct {
 // Probe joins session sid with a fresh connection, records what it is handed
 // and leaves again (waiting for its departure to complete).
 func Probe(p *sut.Proc, sid, mods string) (*Snapshot, error) {
-	c, err := Dial(p, mods, "")
+	c, err := dial(p, mods, "")
 	if err != nil {
 		return nil, err
 	}
